@@ -13,14 +13,17 @@ ARCHSETS = [
 ]
 
 
+def _tok(t, tok):
+    """A token outside the map is the concatenation of one-letter tokens ("AT" = A followed by T)."""
+    return tok[t] if t in tok else "".join(tok[ch] for ch in t)
+
+
 def real_uid(spec, tok):
-    return "-".join(tok[t] for t in spec["uid"])
+    return "-".join(_tok(t, tok) for t in spec["uid"])
 
 
 def real_id(spec, tok):
-    if spec["id"] in tok:
-        return tok[spec["id"]]
-    return "".join(tok[t] for t in spec["uid"])       # dashed top-level UID: id = UID minus dashes
+    return _tok(spec["id"], tok)
 
 
 def new_ci():
